@@ -10,7 +10,8 @@ package intdataplane
 // Histories: set/delete of the local node, two remote nodes (near = in the local subnet / far / no address), the IP
 // pool (VXLAN always / cross-subnet, IPIP always / cross-subnet, unencapsulated), one IPAM block (remote, remote with
 // an address borrowed by a third node or by the local node, local, local with an address borrowed by a remote node)
-// and a local workload inside the block - in every arrival order, with a dataplane flush after every update (atomic)
+// and a local workload inside the block (plus an IPv6 twin of that universe: dual-stack nodes, v6 pool/block, VXLAN-v6
+// and no-encap-v6 managers) - in every arrival order, with a dataplane flush after every update (atomic)
 // or as a separate event (batched).
 //
 // Oracle (after every flush, from the datastore content alone): for the block CIDR and every borrowed /32 the route
@@ -52,12 +53,26 @@ import (
 
 const (
 	c43Local     = "h1"
-	c43VXLANDev  = "vxlan.calico"
 	c43ParentDev = "eth0"
-	c43LocalIP   = "192.168.0.1"
-	c43BlockCIDR = "10.0.1.0/30"
-	c43PoolCIDR  = "10.0.0.0/16"
 )
+
+// c43Fam: the address plan of one IP family. The IPv6 universe is the twin of the IPv4 one (same shapes: local
+// subnet /64 or /128, near/far/address-less remote nodes, pool, /126 block, borrowed addresses); nodes are dual
+// stack there (a fixed IPv4 address besides the varying IPv6 one), IPIP does not exist.
+type c43Fam struct {
+	v         uint8
+	localIP   string
+	blockCIDR string
+	poolCIDR  string
+	host      string // "/32" or "/128"
+	vxlanDev  string
+	addr      func(ord int) string // address of ordinal ord of the block
+}
+
+var c43V4 = &c43Fam{v: 4, localIP: "192.168.0.1", blockCIDR: "10.0.1.0/30", poolCIDR: "10.0.0.0/16", host: "/32", vxlanDev: "vxlan.calico",
+	addr: func(o int) string { return fmt.Sprintf("10.0.1.%d", o) }}
+var c43V6 = &c43Fam{v: 6, localIP: "fd00:a::1", blockCIDR: "fd00:10::100/126", poolCIDR: "fd00:10::/64", host: "/128", vxlanDev: "vxlan-v6.calico",
+	addr: func(o int) string { return fmt.Sprintf("fd00:10::10%d", o) }}
 
 // ---- universe ----
 
@@ -91,11 +106,43 @@ type c43KeyDef struct {
 	vars []c43Variant
 }
 
-func c43Universe() []c43KeyDef {
+func c43Universe(f *c43Fam) []c43KeyDef {
+	if f.v == 6 {
+		return []c43KeyDef{
+			{name: "h1", key: model.ResourceKey{Kind: internalapi.KindNode, Name: "h1"}, vars: []c43Variant{
+				{name: "net64", node: &c43Node{f.localIP, 64, "fd00:10::1"}},
+				{name: "net128", node: &c43Node{f.localIP, 128, "fd00:10::1"}},
+			}},
+			{name: "h2", key: model.ResourceKey{Kind: internalapi.KindNode, Name: "h2"}, vars: []c43Variant{
+				{name: "near", node: &c43Node{"fd00:a::2", 64, "fd00:10::2:0"}},
+				{name: "far", node: &c43Node{"fd00:b::2", 64, "fd00:10::2:0"}},
+				{name: "noaddr", node: &c43Node{"", 0, "fd00:10::2:0"}},
+			}},
+			{name: "h3", key: model.ResourceKey{Kind: internalapi.KindNode, Name: "h3"}, vars: []c43Variant{
+				{name: "near", node: &c43Node{"fd00:a::3", 64, "fd00:10::3:0"}},
+				{name: "far", node: &c43Node{"fd00:b::3", 64, "fd00:10::3:0"}},
+			}},
+			{name: "pool", key: model.IPPoolKey{CIDR: netip.MustParsePrefix(f.poolCIDR)}, vars: []c43Variant{
+				{name: "vxlan", pool: &c43Pool{proto.IPPoolType_VXLAN, false}},
+				{name: "vxlanX", pool: &c43Pool{proto.IPPoolType_VXLAN, true}},
+				{name: "noencap", pool: &c43Pool{proto.IPPoolType_NO_ENCAP, false}},
+			}},
+			{name: "blk", key: model.BlockKey{CIDR: netip.MustParsePrefix(f.blockCIDR)}, vars: []c43Variant{
+				{name: "h2", blk: &c43Block{"h2", nil}},
+				{name: "h2lendH3", blk: &c43Block{"h2", map[int]string{2: "h3"}}},
+				{name: "h2lendH1", blk: &c43Block{"h2", map[int]string{1: "h1"}}},
+				{name: "h1", blk: &c43Block{"h1", nil}},
+				{name: "h1lendH2", blk: &c43Block{"h1", map[int]string{2: "h2"}}},
+			}},
+			{name: "w1", key: model.WorkloadEndpointKey{Hostname: "h1", OrchestratorID: "k8s", WorkloadID: "w1", EndpointID: "eth0"}, vars: []c43Variant{
+				{name: "in", wep: f.addr(1)},
+			}},
+		}
+	}
 	return []c43KeyDef{
 		{name: "h1", key: model.ResourceKey{Kind: internalapi.KindNode, Name: "h1"}, vars: []c43Variant{
-			{name: "net24", node: &c43Node{c43LocalIP, 24, "10.0.0.1"}},
-			{name: "net32", node: &c43Node{c43LocalIP, 32, "10.0.0.1"}},
+			{name: "net24", node: &c43Node{f.localIP, 24, "10.0.0.1"}},
+			{name: "net32", node: &c43Node{f.localIP, 32, "10.0.0.1"}},
 		}},
 		{name: "h2", key: model.ResourceKey{Kind: internalapi.KindNode, Name: "h2"}, vars: []c43Variant{
 			{name: "near", node: &c43Node{"192.168.0.2", 24, "10.0.2.0"}},
@@ -106,14 +153,14 @@ func c43Universe() []c43KeyDef {
 			{name: "near", node: &c43Node{"192.168.0.3", 24, "10.0.3.0"}},
 			{name: "far", node: &c43Node{"192.168.1.3", 24, "10.0.3.0"}},
 		}},
-		{name: "pool", key: model.IPPoolKey{CIDR: netip.MustParsePrefix(c43PoolCIDR)}, vars: []c43Variant{
+		{name: "pool", key: model.IPPoolKey{CIDR: netip.MustParsePrefix(f.poolCIDR)}, vars: []c43Variant{
 			{name: "vxlan", pool: &c43Pool{proto.IPPoolType_VXLAN, false}},
 			{name: "vxlanX", pool: &c43Pool{proto.IPPoolType_VXLAN, true}},
 			{name: "ipip", pool: &c43Pool{proto.IPPoolType_IPIP, false}},
 			{name: "ipipX", pool: &c43Pool{proto.IPPoolType_IPIP, true}},
 			{name: "noencap", pool: &c43Pool{proto.IPPoolType_NO_ENCAP, false}},
 		}},
-		{name: "blk", key: model.BlockKey{CIDR: netip.MustParsePrefix(c43BlockCIDR)}, vars: []c43Variant{
+		{name: "blk", key: model.BlockKey{CIDR: netip.MustParsePrefix(f.blockCIDR)}, vars: []c43Variant{
 			{name: "h2", blk: &c43Block{"h2", nil}},
 			{name: "h2lendH3", blk: &c43Block{"h2", map[int]string{2: "h3"}}},
 			{name: "h2lendH1", blk: &c43Block{"h2", map[int]string{1: "h1"}}},
@@ -121,17 +168,27 @@ func c43Universe() []c43KeyDef {
 			{name: "h1lendH2", blk: &c43Block{"h1", map[int]string{2: "h2"}}},
 		}},
 		{name: "w1", key: model.WorkloadEndpointKey{Hostname: "h1", OrchestratorID: "k8s", WorkloadID: "w1", EndpointID: "eth0"}, vars: []c43Variant{
-			{name: "in", wep: "10.0.1.1"},
+			{name: "in", wep: f.addr(1)},
 		}},
 	}
 }
 
-func (v *c43Variant) make(name string) any {
+func (v *c43Variant) make(name string, f *c43Fam) any {
 	switch {
 	case v.node != nil:
 		n := &internalapi.Node{
 			TypeMeta:   metav1.TypeMeta{Kind: internalapi.KindNode, APIVersion: v3.GroupVersionCurrent},
 			ObjectMeta: metav1.ObjectMeta{Name: name},
+		}
+		if f.v == 6 {
+			// dual stack: a fixed IPv4 address, the IPv6 one varies
+			n.Spec.BGP = &internalapi.NodeBGPSpec{IPv4Address: "192.168.0." + name[1:] + "/24"}
+			if v.node.ip != "" {
+				n.Spec.BGP.IPv6Address = fmt.Sprintf("%s/%d", v.node.ip, v.node.pfx)
+			}
+			n.Spec.IPv6VXLANTunnelAddr = v.node.tun
+			n.Spec.VXLANTunnelMACAddrV6 = "66:00:00:00:06:0" + name[1:]
+			return n
 		}
 		if v.node.ip != "" {
 			n.Spec.BGP = &internalapi.NodeBGPSpec{IPv4Address: fmt.Sprintf("%s/%d", v.node.ip, v.node.pfx)}
@@ -140,7 +197,7 @@ func (v *c43Variant) make(name string) any {
 		n.Spec.VXLANTunnelMACAddr = "66:00:00:00:00:0" + name[1:]
 		return n
 	case v.pool != nil:
-		p := &model.IPPool{CIDR: cnet.MustParseNetwork(c43PoolCIDR), VXLANMode: encap.Never, IPIPMode: encap.Never}
+		p := &model.IPPool{CIDR: cnet.MustParseNetwork(f.poolCIDR), VXLANMode: encap.Never, IPIPMode: encap.Never}
 		var m encap.Mode = encap.Always
 		if v.pool.cross {
 			m = encap.CrossSubnet
@@ -154,7 +211,7 @@ func (v *c43Variant) make(name string) any {
 		return p
 	case v.blk != nil:
 		aff := "host:" + v.blk.host
-		b := &model.AllocationBlock{CIDR: cnet.MustParseNetwork(c43BlockCIDR), Affinity: &aff, Allocations: make([]*int, 4)}
+		b := &model.AllocationBlock{CIDR: cnet.MustParseNetwork(f.blockCIDR), Affinity: &aff, Allocations: make([]*int, 4)}
 		b.Attributes = append(b.Attributes, model.AllocationAttribute{})
 		ords := make([]int, 0, len(v.blk.borrow))
 		for o := range v.blk.borrow {
@@ -173,8 +230,13 @@ func (v *c43Variant) make(name string) any {
 		}
 		return b
 	default:
-		return &model.WorkloadEndpoint{State: "active", Name: "cali1", IPv4Nets: []cnet.IPNet{cnet.MustParseNetwork(v.wep + "/32")},
-			Labels: uniquelabels.Make(map[string]string{"a": "1"})}
+		w := &model.WorkloadEndpoint{State: "active", Name: "cali1", Labels: uniquelabels.Make(map[string]string{"a": "1"})}
+		if f.v == 6 {
+			w.IPv6Nets = []cnet.IPNet{cnet.MustParseNetwork(v.wep + f.host)}
+		} else {
+			w.IPv4Nets = []cnet.IPNet{cnet.MustParseNetwork(v.wep + f.host)}
+		}
+		return w
 	}
 }
 
@@ -184,9 +246,11 @@ type c43Cfg struct {
 	batched bool
 	base    []string // events applied in New (not counted in the depth bound)
 	only    []string // arrival-order system: the only events are these sets, each key once, no deletes
+	v6      bool     // the IPv6 twin universe (VXLAN-v6 and no-encap-v6 managers; no IPIP)
 }
 
 type c43Inst struct {
+	f    *c43Fam
 	cfg  c43Cfg
 	uni  []c43KeyDef
 	es   *calc.EventSequencer
@@ -204,14 +268,18 @@ type c43Inst struct {
 }
 
 func c43New(cfg c43Cfg) *c43Inst {
-	in := &c43Inst{cfg: cfg, uni: c43Universe(), emitted: map[string]string{}}
+	fam := c43V4
+	if cfg.v6 {
+		fam = c43V6
+	}
+	in := &c43Inst{f: fam, cfg: cfg, uni: c43Universe(fam), emitted: map[string]string{}}
 	in.ds = make([]int, len(in.uni))
 	for i := range in.ds {
 		in.ds[i] = -1
 	}
 	conf := config.New()
 	conf.FelixHostname = c43Local
-	conf.Encapsulation = config.Encapsulation{IPIPEnabled: true, VXLANEnabled: true, NoEncapNeeded: true}
+	conf.Encapsulation = config.Encapsulation{IPIPEnabled: true, VXLANEnabled: true, VXLANEnabledV6: cfg.v6, NoEncapNeeded: true}
 	conf.ProgramClusterRoutes = v3.Enabled
 	in.es = calc.NewEventSequencer(conf)
 	in.es.Callback = in.onMsg
@@ -225,7 +293,11 @@ func c43New(cfg c43Cfg) *c43Inst {
 	}
 	nl.ImmediateLinkUp = true
 	eth0 := nl.AddIface(2, c43ParentDev, true, true)
-	if err := nl.AddrAdd(eth0, &netlink.Addr{IPNet: &net.IPNet{IP: net.ParseIP(c43LocalIP).To4()}}); err != nil {
+	parentIP := net.ParseIP(fam.localIP)
+	if fam.v == 4 {
+		parentIP = parentIP.To4()
+	}
+	if err := nl.AddrAdd(eth0, &netlink.Addr{IPNet: &net.IPNet{IP: parentIP}}); err != nil {
 		panic(err)
 	}
 	nl.ResetDeltas()
@@ -240,9 +312,11 @@ func c43New(cfg c43Cfg) *c43Inst {
 		IPIPMTU:                     1440,
 	}
 	op := logrusr.NewSummarizer("c43")
-	in.vx = newVXLANManagerWithShims(dpsets.NewMockIPSets(), in.rt, &mockVXLANFDB{}, c43VXLANDev, 4, 1410, dpc, op, nl)
-	in.ipip = newIPIPManagerWithShims(in.rt, dataplanedefs.IPIPIfaceName, 4, 1440, dpc, op, nl)
-	in.ne = newNoEncapManagerWithSims(in.rt, 4, dpc, op, nl)
+	in.vx = newVXLANManagerWithShims(dpsets.NewMockIPSets(), in.rt, &mockVXLANFDB{}, fam.vxlanDev, fam.v, 1410, dpc, op, nl)
+	if fam.v == 4 {
+		in.ipip = newIPIPManagerWithShims(in.rt, dataplanedefs.IPIPIfaceName, 4, 1440, dpc, op, nl)
+	}
+	in.ne = newNoEncapManagerWithSims(in.rt, fam.v, dpc, op, nl)
 	// the datastore is in sync from the start: every explored update is a live update
 	in.vf.OnStatusUpdated(api.InSync)
 	in.flush()
@@ -264,11 +338,11 @@ func (in *c43Inst) onMsg(msg any) {
 	case *proto.RouteRemove:
 		delete(in.emitted, "route "+m.Dst)
 	case *proto.VXLANTunnelEndpointUpdate:
-		in.emitted["vtep "+m.Node] = fmt.Sprintf("%s %s %s", m.Ipv4Addr, m.ParentDeviceIp, m.Mac)
+		in.emitted["vtep "+m.Node] = fmt.Sprintf("%s %s %s | %s %s %s", m.Ipv4Addr, m.ParentDeviceIp, m.Mac, m.Ipv6Addr, m.ParentDeviceIpv6, m.MacV6)
 	case *proto.VXLANTunnelEndpointRemove:
 		delete(in.emitted, "vtep "+m.Node)
 	case *proto.HostMetadataUpdate:
-		in.emitted["host "+m.Hostname] = m.Ipv4Addr
+		in.emitted["host "+m.Hostname] = m.Ipv4Addr + " " + m.Ipv6Addr
 	case *proto.HostMetadataRemove:
 		delete(in.emitted, "host "+m.Hostname)
 	default:
@@ -276,14 +350,20 @@ func (in *c43Inst) onMsg(msg any) {
 	}
 	// every manager sees every message, as in InternalDataplane.processMsgFromCalcGraph
 	in.vx.OnUpdate(msg)
-	in.ipip.OnUpdate(msg)
+	if in.ipip != nil {
+		in.ipip.OnUpdate(msg)
+	}
 	in.ne.OnUpdate(msg)
 }
 
 func (in *c43Inst) flush() {
 	in.cg.Flush()
 	in.es.Flush()
-	for _, f := range []func() error{in.vx.CompleteDeferredWork, in.ipip.CompleteDeferredWork, in.ne.CompleteDeferredWork} {
+	work := []func() error{in.vx.CompleteDeferredWork, in.ne.CompleteDeferredWork}
+	if in.ipip != nil {
+		work = append(work, in.ipip.CompleteDeferredWork)
+	}
+	for _, f := range work {
 		if err := f(); err != nil {
 			panic(err)
 		}
@@ -329,7 +409,7 @@ func (in *c43Inst) apply(e c43Ev) {
 	case "set":
 		kd := in.uni[e.k]
 		in.ds[e.k] = e.v
-		val := kd.vars[e.v].make(kd.name)
+		val := kd.vars[e.v].make(kd.name, in.f)
 		in.vf.OnUpdates(in.expand(kd, val, api.UpdateTypeKVUpdated))
 	case "del":
 		in.ds[e.k] = -1
@@ -348,6 +428,31 @@ func (in *c43Inst) apply(e c43Ev) {
 // FelixNodeUpdateProcessor into host-config keys (VXLAN tunnel address and MAC) followed by the resource itself,
 // in one batch; that fan-out is reproduced here (same keys, same order, nil for an absent value).
 func (in *c43Inst) expand(kd c43KeyDef, val any, ut api.UpdateType) []api.Update {
+	hc := func(name string, v string) api.Update {
+		if v == "" {
+			return api.Update{KVPair: model.KVPair{Key: model.HostConfigKey{Hostname: kd.name, Name: name}}, UpdateType: api.UpdateTypeKVDeleted}
+		}
+		return api.Update{KVPair: model.KVPair{Key: model.HostConfigKey{Hostname: kd.name, Name: name}, Value: v}, UpdateType: api.UpdateTypeKVUpdated}
+	}
+	if in.f.v == 6 {
+		if _, isNode := kd.key.(model.ResourceKey); isNode {
+			var n *internalapi.Node
+			if val != nil {
+				n = val.(*internalapi.Node)
+			} else {
+				n = &internalapi.Node{}
+			}
+			res := api.Update{KVPair: model.KVPair{Key: kd.key}, UpdateType: api.UpdateTypeKVDeleted}
+			if val != nil {
+				res = api.Update{KVPair: model.KVPair{Key: kd.key, Value: val}, UpdateType: ut}
+			}
+			return []api.Update{
+				hc("IPv4VXLANTunnelAddr", n.Spec.IPv4VXLANTunnelAddr), hc("VXLANTunnelMACAddr", n.Spec.VXLANTunnelMACAddr),
+				hc("IPv6VXLANTunnelAddr", n.Spec.IPv6VXLANTunnelAddr), hc("VXLANTunnelMACAddrV6", n.Spec.VXLANTunnelMACAddrV6),
+				res,
+			}
+		}
+	}
 	if val == nil {
 		if _, isNode := kd.key.(model.ResourceKey); isNode {
 			return []api.Update{
@@ -524,7 +629,7 @@ func (in *c43Inst) wantRemote(owner string) c43Want {
 		if on != nil && on.ip != "" {
 			vtep = on.tun
 		}
-		return c43Want{obs: &c43Obs{routetable.RouteClassVXLANTunnel, c43VXLANDev, routetable.TargetTypeVXLAN, vtep},
+		return c43Want{obs: &c43Obs{routetable.RouteClassVXLANTunnel, in.f.vxlanDev, routetable.TargetTypeVXLAN, vtep},
 			complete: vtep != "", kind: "tunnel:" + tname, why: fmt.Sprintf("pool %s, owner %s=%s vtep %s, local node %+v", tname, owner, ownerIP, vtep, h1)}
 	default:
 		return c43Want{obs: &c43Obs{routetable.RouteClassIPIPTunnel, dataplanedefs.IPIPIfaceName, routetable.TargetTypeOnLink, ownerIP},
@@ -571,28 +676,28 @@ func c43Check(in *c43Inst, hist []c43Ev) []hbfs.Fail {
 	ignore := map[string]bool{}
 	for _, n := range []string{"h1", "h2", "h3"} {
 		if nd := in.node(n); nd != nil && nd.tun != "" {
-			ignore[nd.tun+"/32"] = true
+			ignore[nd.tun+in.f.host] = true
 		}
 	}
 	bv := in.variant("blk")
 	localAddrs := map[string]bool{}
 	if w := in.variant("w1"); w != nil {
-		localAddrs[w.wep+"/32"] = true
+		localAddrs[w.wep+in.f.host] = true
 	}
 	if bv != nil {
 		b := bv.blk
 		if b.host == c43Local {
 			if pv := in.variant("pool"); pv != nil {
 				cl := blackholeRouteClass(pv.pool.t)
-				want[c43BlockCIDR] = c43Want{obs: &c43Obs{cl, routetable.InterfaceNone, routetable.TargetTypeBlackhole, ""}, complete: true, kind: "blackhole", why: "local block"}
+				want[in.f.blockCIDR] = c43Want{obs: &c43Obs{cl, routetable.InterfaceNone, routetable.TargetTypeBlackhole, ""}, complete: true, kind: "blackhole", why: "local block"}
 			} else {
-				want[c43BlockCIDR] = c43Want{kind: "none", why: "local block but no IP pool covers it"}
+				want[in.f.blockCIDR] = c43Want{kind: "none", why: "local block but no IP pool covers it"}
 			}
 		} else {
-			want[c43BlockCIDR] = in.wantRemote(b.host)
+			want[in.f.blockCIDR] = in.wantRemote(b.host)
 		}
 		for ord, user := range b.borrow {
-			cidr := fmt.Sprintf("10.0.1.%d/32", ord)
+			cidr := in.f.addr(ord) + in.f.host
 			if user == c43Local {
 				localAddrs[cidr] = true
 				want[cidr] = c43Want{kind: "none", why: "address used by the local node (the endpoint manager owns the route)"}
@@ -684,7 +789,11 @@ func c43Key(in *c43Inst) string {
 	}
 	sort.Strings(parts)
 	sb.WriteString(strings.Join(parts, ";"))
-	for i, rm := range []*routeManager{in.vx.routeMgr, in.ipip.routeMgr, in.ne.routeMgr} {
+	rms := []*routeManager{in.vx.routeMgr, in.ne.routeMgr}
+	if in.ipip != nil {
+		rms = append(rms, in.ipip.routeMgr)
+	}
+	for i, rm := range rms {
 		parts = parts[:0]
 		for d, r := range rm.routesByDest {
 			parts = append(parts, fmt.Sprintf("%s>%s/%s/%v/%d", d, r.DstNodeName, r.DstNodeIp, r.SameSubnet, r.Types))
@@ -697,10 +806,12 @@ func c43Key(in *c43Inst) string {
 	}
 	parts = parts[:0]
 	for n, v := range in.vx.vtepsByNode {
-		parts = append(parts, n+"="+v.Ipv4Addr)
+		parts = append(parts, n+"="+v.Ipv4Addr+"/"+v.Ipv6Addr)
 	}
-	for n, v := range in.ipip.activeHostnameToIP {
-		parts = append(parts, n+"="+v)
+	if in.ipip != nil {
+		for n, v := range in.ipip.activeHostnameToIP {
+			parts = append(parts, n+"="+v)
+		}
 	}
 	sort.Strings(parts)
 	fmt.Fprintf(&sb, "|%s", strings.Join(parts, ","))
@@ -708,7 +819,7 @@ func c43Key(in *c43Inst) string {
 }
 
 func c43Spec(cfg c43Cfg, name string, depth int, graph bool) *hbfs.Spec[*c43Inst, c43Ev] {
-	shower := c43New(c43Cfg{})
+	shower := c43New(c43Cfg{v6: cfg.v6})
 	sp := &hbfs.Spec[*c43Inst, c43Ev]{
 		Name:     name,
 		New:      func() *c43Inst { return c43New(cfg) },
@@ -755,6 +866,7 @@ var c43Bases = map[string][]string{
 	"empty":     nil,
 	"vxlanX":    {"h1=net24", "h2=near", "h3=far", "pool=vxlanX", "blk=h2lendH3", "w1=in"},
 	"ipipLocal": {"h1=net24", "h2=far", "h3=near", "pool=ipip", "blk=h1lendH2", "w1=in"},
+	"vxlanX6":   {"h1=net128", "h2=near", "h3=far", "pool=vxlanX", "blk=h2lendH3", "w1=in"}, // IPv6 universe
 }
 
 func TestVerif_C43(t *testing.T) {
@@ -766,7 +878,7 @@ func TestVerif_C43(t *testing.T) {
 		c.Rule("state = (datastore content: variant of local node h1, remote nodes h2/h3, IP pool, IPAM block, local workload; latest message per object emitted by the calc graph; routesByDest/localIPAMBlocks/parent device/VTEPs/host IPs of the three managers; mock route table per route class); " +
 			"transition = set(key,variant) / delete(key) delivered through ValidationFilter->CalcGraph->EventSequencer into the VXLAN, IPIP and no-encap managers, followed by flush + CompleteDeferredWork (atomic system) or with flush as a separate event (batched system); every transition replays the history on a fresh instance; " +
 			"non-trivial = flushed state with a pool and a block in the datastore and at least one programmed route")
-		c.Assume("IPv4 only; the datastore is in sync before the first explored update; the parent interface (eth0, carrying the local node address) exists in the mock netlink dataplane, so the managers find it synchronously as soon as the local node's address is known (the asynchronous parent-device report is not a separate event)")
+		c.Assume("IPv4 universe and an IPv6 twin (dual-stack nodes, VXLAN-v6 and no-encap-v6 managers; IPIP is IPv4 only), never both pools at once; the datastore is in sync before the first explored update; the parent interface (eth0, carrying the local node address) exists in the mock netlink dataplane, so the managers find it synchronously as soon as the local node's address is known (the asynchronous parent-device report is not a separate event)")
 		c.Assume("the local node always has a VXLAN tunnel address when it exists (a local node without VTEP has no VXLAN device at all); routes for tunnel addresses themselves are outside the statement and ignored")
 		c.Assume("Go map iteration order inside one flush (EventSequencer pending maps, routesByDest) is not controlled; the oracle is insensitive to it")
 		if rf := c.ReplayFile(); rf != "" {
@@ -778,7 +890,7 @@ func TestVerif_C43(t *testing.T) {
 				c.ToolError(err.Error())
 				return
 			}
-			cfg := c43Cfg{batched: strings.Contains(d.Spec, "batched")}
+			cfg := c43Cfg{batched: strings.Contains(d.Spec, "batched"), v6: strings.Contains(d.Spec, "-v6")}
 			for bn, b := range c43Bases {
 				if strings.Contains(d.Spec, "base-"+bn) {
 					cfg.base = b
@@ -801,29 +913,40 @@ func TestVerif_C43(t *testing.T) {
 		// 0. every arrival order of the six objects of a configuration, for the cross product of pool type x
 		//    position of h2 x block variant (h3 sits on the other side of the subnet boundary than h2)
 		var nOrders, nCfg int64
-		for _, pool := range []string{"vxlan", "vxlanX", "ipip", "ipipX", "noencap"} {
-			for _, h2 := range []string{"near", "far"} {
-				for _, blk := range []string{"h2", "h2lendH3", "h2lendH1", "h1", "h1lendH2"} {
-					h3 := "far"
-					if h2 == "far" {
-						h3 = "near"
-					}
-					only := []string{"h1=net24", "h2=" + h2, "h3=" + h3, "pool=" + pool, "blk=" + blk, "w1=in"}
-					for _, batched := range []bool{false, true} {
-						if batched && !(c.Thorough() || (pool == "vxlanX" || pool == "ipipX") && (blk == "h2lendH3" || blk == "h1lendH2")) {
-							continue
+		for _, v6 := range []bool{false, true} {
+			pools := []string{"vxlan", "vxlanX", "ipip", "ipipX", "noencap"}
+			h1 := "h1=net24"
+			if v6 {
+				pools = []string{"vxlan", "vxlanX", "noencap"}
+				h1 = "h1=net64"
+			}
+			for _, pool := range pools {
+				for _, h2 := range []string{"near", "far"} {
+					for _, blk := range []string{"h2", "h2lendH3", "h2lendH1", "h1", "h1lendH2"} {
+						h3 := "far"
+						if h2 == "far" {
+							h3 = "near"
 						}
-						name := fmt.Sprintf("routes-arrival-%s-h2%s-%s", pool, h2, blk)
-						if batched {
-							name += "-batched"
-						}
-						sp := c43Spec(c43Cfg{only: only, batched: batched}, name, 14, true)
-						sp.Quiet = true
-						st := hbfs.Explore(c, sp)
-						nOrders += st.Transitions
-						nCfg++
-						if !st.Complete {
-							break
+						only := []string{h1, "h2=" + h2, "h3=" + h3, "pool=" + pool, "blk=" + blk, "w1=in"}
+						for _, batched := range []bool{false, true} {
+							if batched && !(c.Thorough() || (pool == "vxlanX" || pool == "ipipX") && (blk == "h2lendH3" || blk == "h1lendH2")) {
+								continue
+							}
+							name := fmt.Sprintf("routes-arrival-%s-h2%s-%s", pool, h2, blk)
+							if v6 {
+								name += "-v6"
+							}
+							if batched {
+								name += "-batched"
+							}
+							sp := c43Spec(c43Cfg{only: only, batched: batched, v6: v6}, name, 14, true)
+							sp.Quiet = true
+							st := hbfs.Explore(c, sp)
+							nOrders += st.Transitions
+							nCfg++
+							if !st.Complete {
+								break
+							}
 						}
 					}
 				}
@@ -837,6 +960,9 @@ func TestVerif_C43(t *testing.T) {
 		hbfs.Explore(c, c43Spec(c43Cfg{base: c43Bases["ipipLocal"]}, "routes-atomic-base-ipipLocal-graph", c.Pick(2, 4), true))
 		// 3. several updates per flush
 		hbfs.Explore(c, c43Spec(c43Cfg{batched: true}, "routes-batched-base-empty-graph", c.Pick(3, 6), true))
+		// 5. IPv6 twin: set/delete incl. re-addressing of the local node (/64 <-> /128) and of the remote nodes
+		hbfs.Explore(c, c43Spec(c43Cfg{v6: true}, "routes-atomic-base-empty-graph-v6", c.Pick(3, 5), true))
+		hbfs.Explore(c, c43Spec(c43Cfg{v6: true, base: c43Bases["vxlanX6"]}, "routes-atomic-base-vxlanX6-graph-v6", c.Pick(2, 4), true))
 		// 4. no reliance on the state key
 		hbfs.Explore(c, c43Spec(c43Cfg{base: c43Bases["vxlanX"]}, "routes-atomic-base-vxlanX-tree", c.Pick(2, 3), false))
 	})
